@@ -40,7 +40,7 @@ pub fn budget(prop: &str, tier: Tier) -> u64 {
         "C01" => 24_000,
         "C18" => 20_000,
         "C17" => 6_000,
-        "C10" => 8_000,
+        "C10" => 6_000,
         _ => 10_000,
     };
     match tier {
